@@ -47,6 +47,8 @@ def gen_configs(rng, box, n):
         cfg = {"method": method, "grid": rng.random() < 0.6}
         if method == "distance":
             cfg["max_dist"] = rng.choice([None, None, "inf", 0, 0.0, 1.0, 2.5, 6.0, 1000.0, -1])
+        cfg["build"] = rng.choice(BUILDS)
+        cfg["progress"] = rng.random() < 0.1
         out.append(cfg)
     return out
 
@@ -69,11 +71,41 @@ def generate(streams: Streams, tier: str, index: int) -> dict:
 # --------------------------------------------------------------------------- execution
 
 
-def build_etc(frames):
+BUILDS = ["ctor", "ctor", "append", "linked", "sliced", "copied", "pickled"]
+
+
+def build_etc(frames, how: str = "ctor"):
+    """The time course handed to the tracker, with one of several pasts (all give the same
+    frames and times): constructor, frame-by-frame append, emulsions whose members are views
+    into one linked array, a slice of a longer time course, a copy-constructed one, one that
+    crossed a process boundary."""
     import droplets as dr
 
     ems = [dr.Emulsion([scenes.make_droplet(s) for s in f["droplets"]]) for f in frames]
-    return dr.EmulsionTimeCourse(ems, times=[gen.make_time(f["t"]) for f in frames])
+    times = [gen.make_time(f["t"]) for f in frames]
+    if how == "append":
+        etc = dr.EmulsionTimeCourse()
+        for e, t in zip(ems, times):
+            etc.append(e, time=t)
+        return etc
+    if how == "sliced" and frames:
+        t0 = times[0] - 1
+        extra = dr.Emulsion([scenes.make_droplet(s) for s in frames[-1]["droplets"]])
+        return dr.EmulsionTimeCourse([extra] + ems, times=[t0] + times)[1:]
+    etc = dr.EmulsionTimeCourse(ems, times=times)
+    if how == "linked":
+        for e in etc.emulsions:
+            try:
+                e.get_linked_data()
+            except Exception:  # mixed droplet classes cannot be linked
+                pass
+    elif how == "copied":
+        etc = dr.EmulsionTimeCourse(etc)
+    elif how == "pickled":
+        import pickle
+
+        etc = pickle.loads(pickle.dumps(etc))
+    return etc
 
 
 def etc_fingerprint(etc):
@@ -90,6 +122,12 @@ def run_tracking(etc, cfg, box):
     md = cfg.get("max_dist")
     if md is not None:
         kw["max_dist"] = math.inf if md == "inf" else md
+    if cfg.get("progress"):
+        import contextlib
+        import io
+
+        with contextlib.redirect_stderr(io.StringIO()):
+            return dr.DropletTrackList.from_emulsion_time_course(etc, progress=True, **kw)
     return dr.DropletTrackList.from_emulsion_time_course(etc, **kw)
 
 
@@ -114,7 +152,8 @@ def execute(case: dict) -> Outcome:
         cnt.inc("probe.empty_after_nonempty")
     inter = []
     for cfg in case["configs"]:
-        etc = build_etc(frames)
+        etc = build_etc(frames, cfg.get("build", "ctor"))
+        cnt.inc("build." + cfg.get("build", "ctor"))
         fp_before = etc_fingerprint(etc)
         ftimes = [float(t) for t in etc.times]
         sig_cfg = {"method": cfg["method"], "grid": str(bool(cfg.get("grid")))}
@@ -233,6 +272,8 @@ def shrink(case: dict):
             yield {**case, "configs": case["configs"][:ci] + [{**c, "grid": False}] + case["configs"][ci + 1:]}
         if c.get("max_dist") is not None:
             yield {**case, "configs": case["configs"][:ci] + [{k: v for k, v in c.items() if k != "max_dist"}] + case["configs"][ci + 1:]}
+        if c.get("build", "ctor") != "ctor" or c.get("progress"):
+            yield {**case, "configs": case["configs"][:ci] + [{**c, "build": "ctor", "progress": False}] + case["configs"][ci + 1:]}
     if h["cls"] != "SphericalDroplet":
         def simp(s):
             return {"cls": "SphericalDroplet", "position": s["position"], "radius": s["radius"]}
